@@ -481,7 +481,7 @@ func genStructCase(rt *rapid.T) StructCase {
 var c20 = &h.Campaign[StructCase]{
 	Prop: "C20", Sub: "structs",
 	Rule: "rapid: struct types built at run time with reflect.StructOf: 1-8 exported fields in random order from {[]byte, string, setec.Secret, value and pointer BinaryUnmarshaler, ',json' struct/map/int, untagged int/[]byte/string with sentinels, an embedded struct with two tagged fields and an untagged one, unsupported tagged int/float/chan, an empty tag name}, clean prefixes, random/empty/rejected/invalid-JSON secret bytes; populated through NewStore(Structs) or ParseFields+Apply; also non-pointer / non-struct arguments and structs without tags; populated []byte fields are overwritten and the store re-read; non-trivial = >= 3 tagged fields of >= 3 kinds plus an untagged one, or a rejected shape, or a failing field with the others filled; distinct by scenario",
-	Quick: 5000, Thorough: 250000,
+	Quick: 5000, Thorough: 5000000,
 	Gen:   genStructCase,
 	Run:   runC20,
 }
